@@ -84,7 +84,7 @@ theorem Py.sort_bin {d s o so} (h : (Py.bin d s o).sort = some so) :
     · simp [ha] at h
   · simp at h
 
-theorem Py.sort_meth {l s so} (h : (Py.meth l s).sort = some so) :
+theorem Py.sort_meth {g l s so} (h : (Py.meth g l s).sort = some so) :
     so = .stream ∧ s.sort = some .stream := by
   simp only [Py.sort] at h
   split at h
@@ -107,7 +107,7 @@ theorem Py.isIterable_of_sort {p : Py} {so} (h : p.sort = some so) : p.isIterabl
   | stream2 a b => rw [(Py.sort_stream2 h).1]; rfl
   | un d s => rw [(Py.sort_un h).1]; rfl
   | bin d s o => rw [(Py.sort_bin h).1]; rfl
-  | meth l s => rw [(Py.sort_meth h).1]; rfl
+  | meth g l s => rw [(Py.sort_meth h).1]; rfl
   | append s o => rw [(Py.sort_append h).1]; rfl
 
 theorem Val.of_sort_stream {v : Val} (h : v.sort = .stream) : ∃ it, v = .iterable true it := by
@@ -305,12 +305,12 @@ theorem evalPy_sound (tbl : List (Name × Dunder)) (htbl : TableOK tbl) :
         cases s.at i <;> cases o.at i <;> simp [hr]
       · show it.len = _
         rw [hlen, ls, lo]; rfl
-  | meth l s ihs =>
+  | meth g l s ihs =>
     intro so h
     obtain ⟨rfl, hs⟩ := Py.sort_meth h
     obtain ⟨vs, hvs, hms⟩ := ihs _ hs
     obtain ⟨its, rfl⟩ := Val.of_sort_stream hms.sort
-    refine ⟨.iterable true (.map1 l its), ?_, rfl, fun i => ?_, ?_⟩
+    refine ⟨.iterable true (.mapc g l [] [] its), ?_, rfl, fun i => ?_, ?_⟩
     · simp [evalPy, hvs, bind, Except.bind, asStream, pure, Except.pure]
     · have gs : ∀ i, its.get i = s.at i := hms.get
       simp only [Val.get, Iter.get, Py.at, gs]
@@ -518,7 +518,7 @@ theorem evalPy_refuses (tbl : List (Name × Dunder)) (htbl : TableOK tbl) (hc : 
               | rbinary => rfl
         · have := asStream_error (v := vs) (by rw [hms.sort]; exact hso)
           exact ⟨.notAStream, by simp [evalPy, hvs, hvo, bind, Except.bind, this]⟩
-  | meth l s ihs =>
+  | meth g l s ihs =>
     intro h
     cases hss : s.sort with
     | none =>
